@@ -502,16 +502,19 @@ def gzip_wrapper_owns_file(repo, col, shorts=("file_accessor",)):
                 mode = kwarg(c, "mode") or (c.args[1] if len(c.args) > 1
                                             else None)
                 opened_here = False
+                closed_by_with = False
                 nm = None
                 if isinstance(fo, ast.Call):
                     opened_here = True
                 elif isinstance(fo, ast.Name):
                     nm = fo.id
+                    from .core import opens_file
                     for d in defs.get(nm, []):
                         if isinstance(d.value, ast.Call) and \
-                                (call_name(d.value) or "").split(".")[-1] in (
-                                    "open", "fdopen"):
+                                opens_file(fn, d.value):
                             opened_here = d.kind != "with"
+                            if d.kind == "with":
+                                closed_by_with = True
                 closed = False
                 if nm:
                     for x in walk_local(fn.node):
@@ -536,7 +539,7 @@ def gzip_wrapper_owns_file(repo, col, shorts=("file_accessor",)):
                     col.add(rule, fn, norm(c)[:80], True,
                             "underlying file closed by this function or "
                             "owned by the caller", node=c,
-                            undecided=not closed)
+                            undecided=not closed and not closed_by_with)
     col.add(rule, "package", "%d GzipFile(fileobj=) wrappers" % n, True, "",
             nontrivial=False)
 
@@ -566,6 +569,36 @@ def convert_all_chunk_sizes(repo, col):
                     isinstance(x.value.slice, ast.Constant) and \
                     x.value.slice.value == "chunk_sizes":
                 const_idx = (f, x)
+    if looped and looped[0].key != fn.key:
+        # the loop builds a list in a helper: a caller that takes one
+        # constant element of that list converts one chunk size only
+        holders = {looped[0].key}
+        for _ in range(3):
+            for f in fns:
+                if f.key not in holders and any(
+                        (resolve_local_call(f, c) is not None and
+                         resolve_local_call(f, c).key in holders) or
+                        (resolve_pkg_call(f, c) is not None and
+                         resolve_pkg_call(f, c).key in holders)
+                        for c in calls_in(f.node)):
+                    # f hands the list on only if it returns the call itself
+                    if any(isinstance(r_, ast.Return) and
+                           isinstance(r_.value, ast.Call) and
+                           ((resolve_local_call(f, r_.value) or
+                             resolve_pkg_call(f, r_.value)) is not None) and
+                           (resolve_local_call(f, r_.value) or
+                            resolve_pkg_call(f, r_.value)).key in holders
+                           for r_ in ast.walk(f.node)):
+                        holders.add(f.key)
+        for f in fns:
+            for x in walk_local(f.node):
+                if isinstance(x, ast.Subscript) and \
+                        const_int(x.slice) is not None and \
+                        isinstance(x.value, ast.Call):
+                    h_ = resolve_local_call(f, x.value) or \
+                        resolve_pkg_call(f, x.value)
+                    if h_ is not None and h_.key in holders:
+                        const_idx, looped = (f, x), None
     if looped:
         col.add(rule, looped[0], "for ... in [...]['chunk_sizes']", True,
                 "every chunk size of the scale is converted", node=looped[1]
